@@ -70,6 +70,14 @@ def run(chk):
                               {'name': name, 'octave': o})
         else:
             chk.violation('export', f'export_pitch({name},{o}) raised', {'name': name, 'octave': o})
+        # the same pitch built from the other spellings of its name the constructor accepts (# for +, lower-case letter)
+        if a > 0 or True:
+            for alt in {name.replace('+', '#'), name[0].lower() + name[1:], name[0].lower() + name[1:].replace('+', '#')} - {name}:
+                e2 = impl_export2(kp, alt, o)
+                if e2.startswith('ok:') and e2[3:].split('|')[0] != text:
+                    chk.violation('export', f'a pitch built as AgnosticPitch({alt!r},{o}) exports {e2[3:].split("|")[0]!r}, built as ({name!r},{o}) it exports {text!r}',
+                                  {'name': alt, 'octave': o})
+                    break
         if i % 97 == 0:
             chk.sample({'spelling': text, 'import': r, 'export_twice': e})
     # ---- histories: ONE importer and ONE exporter instance over the whole grid, in several orders: the answers must be
